@@ -14,7 +14,7 @@ open Uniflow Uniflow.Writer Uniflow.Teardown Uniflow.WriterProofs
 theorem accepts_eq (st : Writer.Step) (o : Writer.Out) : accepts st o = isAccepted st o := by
   cases st <;> rfl
 
-theorem receive_done (m : W) (a : Ans) (r : RId) (g : Nat) : (receive m a r g).1.done = m.done := by
+theorem receive_done (m : W) (a : Ans) (r : RId) (g w : Nat) : (receive m a r g w).1.done = m.done := by
   simp only [receive, receiveWith]
   repeat (first | rfl | split)
 
@@ -25,6 +25,11 @@ theorem step_done (m : W) (st : Writer.Step) (h : isClose st = false) : (Writer.
   | unlink r => simp only [Writer.step, stepWith]; repeat (first | rfl | split)
   | write v => simp only [Writer.step, stepWith]; repeat (first | rfl | split)
   | answer r a =>
+    simp only [Writer.step, stepWith]; split
+    · rfl
+    · rw [receive_done]
+  | pop r a => simp only [Writer.step, stepWith]; repeat (first | rfl | split)
+  | deliver r k =>
     simp only [Writer.step, stepWith]; split
     · rfl
     · rw [receive_done]
@@ -53,6 +58,11 @@ theorem done_quiet (m : W) (st : Writer.Step) (hd : m.done = true) (hr : m.rows 
   | unlink r => simp [Writer.step, stepWith, hd, hr]
   | write v => simp [Writer.step, stepWith, hd, hr]
   | answer r a =>
+    simp only [Writer.step, stepWith]; split
+    · exact ⟨rfl, hr, hd⟩
+    · simp [receive, receiveWith, hd, hr]
+  | pop r a => simp only [Writer.step, stepWith]; split <;> exact ⟨rfl, hr, hd⟩
+  | deliver r k =>
     simp only [Writer.step, stepWith]; split
     · exact ⟨rfl, hr, hd⟩
     · simp [receive, receiveWith, hd, hr]
@@ -448,7 +458,8 @@ theorem backed_applyC (rule : Pump.Rule) (c : Comp) (x : CStep) (hb : Backed c) 
 /-- While a torn-down writer's consumer is owed anything, a fair step is enabled: a packet is
 buffered or the channel is closed (the receive returns), or a pending row waits for a held-back
 drop notice. -/
-theorem enabled (c : Comp) (hi : CInv c) (hb : Backed c) (ht : TornDown c) (ho : c.outstanding > 0) :
+theorem enabled (c : Comp) (hi : CInv c) (hb : Backed c) (ht : TornDown c) (hnf : ∀ r, c.w.flight r = [])
+    (ho : c.outstanding > 0) :
     c.p.buf ≠ [] ∨ c.p.exited = true ∨ (c.w.done = false ∧ ∃ r ∈ c.w.readers, (c.w.drops r).length > 0) := by
   by_cases hbuf : c.p.buf = []
   · cases hex : c.p.exited with
@@ -489,13 +500,20 @@ theorem enabled (c : Comp) (hi : CInv c) (hb : Backed c) (ht : TornDown c) (ho :
       have hlinked : p.1 ∈ s.linked := hpre.subset hmem
       have hcl := hclosed p.1 hlinked
       refine ⟨p.1, hlinked, ?_⟩
-      have hob : (owedBy s.rows p.1).length > 0 := by
+      have hob : row.wid ∈ owedBy s.rows p.1 := by
         rw [hsr, owedBy_cons, howes]; simp
-      have hcnt := fifoOK_count (hR.fifo p.1)
       have hmc : c.w.closed p.1 = true := by rw [hR.closed]; exact hcl
-      simp only [WriterProofs.fifo, hmc, if_true] at hcnt
-      have := List.length_filter_le (fun g => some g == linkOf c.w p.1) (c.w.drops p.1)
-      omega
+      rcases hI.backed p.1 row.wid hob with hq | ⟨a, hf⟩
+      · have hqq := hR.queue p.1
+        simp only [WriterProofs.fifo, hmc, if_true] at hqq
+        rw [← hqq] at hq
+        cases hdr : c.w.drops p.1 with
+        | nil => simp [hdr] at hq
+        | cons _ _ => simp
+      · have hff := hR.flight p.1
+        rw [hnf p.1] at hff
+        rw [← hff] at hf
+        cases hf
   · exact Or.inl hbuf
 
 /-- A receive that returns (a packet, or the closed channel) strictly decreases the measure and
@@ -525,10 +543,11 @@ theorem exit_decreases (c : Comp) (hd : c.p.inClosed = true) (hex : c.p.exited =
   simp only [applyC, Pump.stepR, hd, if_true, mu, dropSum, Comp.outstanding, hex, List.length_nil]
   exact ⟨by simp; omega, trivial⟩
 
-theorem receive_rd (m : W) (a : Ans) (r : RId) (g : Nat) :
-    (receive m a r g).1.readers = m.readers ∧ (receive m a r g).1.drops = m.drops ∧ (receive m a r g).1.closed = m.closed := by
+theorem receive_rd (m : W) (a : Ans) (r : RId) (g w : Nat) :
+    (receive m a r g w).1.readers = m.readers ∧ (receive m a r g w).1.drops = m.drops ∧
+    (receive m a r g w).1.closed = m.closed ∧ (receive m a r g w).1.flight = m.flight := by
   simp only [receive, receiveWith]
-  repeat (first | exact ⟨rfl, rfl, rfl⟩ | split)
+  repeat (first | exact ⟨rfl, rfl, rfl, rfl⟩ | split)
 
 theorem sum_dec (l : List RId) (f : RId → Nat) (r : RId) (hnd : l.Nodup) (hr : r ∈ l) (hf : f r > 0) :
     (l.map fun x => if x = r then f r - 1 else f x).sum + 1 = (l.map f).sum := by
@@ -557,7 +576,8 @@ theorem drop_decreases (c : Comp) (hi : CInv c) (hb : Backed c) (r : RId) (hr : 
     mu (applyC .discard c (.w (.deliverDrop r))).1 < mu c ∧
     (applyC .discard c (.w (.deliverDrop r))).1.w.done = false ∧
     (applyC .discard c (.w (.deliverDrop r))).1.w.readers = c.w.readers ∧
-    (applyC .discard c (.w (.deliverDrop r))).1.w.closed = c.w.closed := by
+    (applyC .discard c (.w (.deliverDrop r))).1.w.closed = c.w.closed ∧
+    (applyC .discard c (.w (.deliverDrop r))).1.w.flight = c.w.flight := by
   have hnodup : c.w.readers.Nodup := by
     obtain ⟨s, hR⟩ := hb
     rw [hR.readers]; exact hR.inv.nodup
@@ -568,16 +588,16 @@ theorem drop_decreases (c : Comp) (hi : CInv c) (hb : Backed c) (r : RId) (hr : 
     | cons g rest => exact ⟨g, rest, rfl⟩
   let m' : W := { c.w with drops := fun x => if x = r then rest else c.w.drops x }
   have hst : Writer.step c.w (.deliverDrop r) =
-      ((receive m' Ans.dropped r g).1,
-       { (receive m' Ans.dropped r g).2 with ret := match (receive m' Ans.dropped r g).2.ret with | .panic s => .panic s | _ => .unit }) := by
+      ((receive m' Ans.dropped r g.1 g.2).1,
+       { (receive m' Ans.dropped r g.1 g.2).2 with ret := match (receive m' Ans.dropped r g.1 g.2).2.ret with | .panic s => .panic s | _ => .unit }) := by
     simp only [Writer.step, stepWith, hgr]; rfl
-  obtain ⟨_, _, hlen, _⟩ := receive_facts m' Ans.dropped r g hi.head
-  obtain ⟨hrd, hdr, hcl⟩ := receive_rd m' Ans.dropped r g
-  obtain ⟨e1, _, _, _, e5⟩ := enqAll_open .discard c.p (receive m' Ans.dropped r g).2.emits hic
-  have hdone : (receive m' Ans.dropped r g).1.done = false := by rw [receive_done]; exact hnd
+  obtain ⟨_, _, hlen, _⟩ := receive_facts m' Ans.dropped r g.1 g.2 hi.head
+  obtain ⟨hrd, hdr, hcl, hfl⟩ := receive_rd m' Ans.dropped r g.1 g.2
+  obtain ⟨e1, _, _, _, e5⟩ := enqAll_open .discard c.p (receive m' Ans.dropped r g.1 g.2).2.emits hic
+  have hdone : (receive m' Ans.dropped r g.1 g.2).1.done = false := by rw [receive_done]; exact hnd
   have hna : accepts (.deliverDrop r) (Writer.step c.w (.deliverDrop r)).2 = false := rfl
   simp only [applyC, hna, hst, isClose, Bool.false_eq_true, if_false]
-  refine ⟨?_, hdone, hrd, hcl⟩
+  refine ⟨?_, hdone, hrd, hcl, hfl⟩
   simp only [mu, dropSum, e1, e5, hrd, hdr, List.length_append, Comp.outstanding, Nat.add_zero]
   have hs := sum_dec c.w.readers (fun x => (c.w.drops x).length) r hnodup hr hd
   have hmap : (c.w.readers.map fun x => (m'.drops x).length) =
@@ -588,11 +608,11 @@ theorem drop_decreases (c : Comp) (hi : CInv c) (hb : Backed c) (r : RId) (hr : 
     split
     · rw [hgr]; simp
     · rfl
-  show 2 * (receive m' Ans.dropped r g).1.rows.length + (c.p.buf.length + (receive m' Ans.dropped r g).2.emits.length) +
+  show 2 * (receive m' Ans.dropped r g.1 g.2).1.rows.length + (c.p.buf.length + (receive m' Ans.dropped r g.1 g.2).2.emits.length) +
       (c.w.readers.map fun x => (m'.drops x).length).sum + (c.accepted - c.got.length) +
       (if c.p.exited = true then 0 else 1) < _
   rw [hmap]
-  have hl : (receive m' Ans.dropped r g).2.emits.length + (receive m' Ans.dropped r g).1.rows.length = c.w.rows.length := hlen
+  have hl : (receive m' Ans.dropped r g.1 g.2).2.emits.length + (receive m' Ans.dropped r g.1 g.2).1.rows.length = c.w.rows.length := hlen
   omega
 
 /-- A torn-down writer accepts no write: no new response becomes owed. -/
@@ -617,25 +637,25 @@ pump goroutine returning. -/
 def IsFair (x : CStep) : Prop := x = .recv ∨ x = .pumpExit ∨ ∃ r, x = .w (.deliverDrop r)
 
 /-- From a torn-down state, at most `μ` fair steps release everything that is owed. -/
-theorem release (n : Nat) : ∀ c : Comp, mu c ≤ n → CInv c → Backed c → TornDown c →
+theorem release (n : Nat) : ∀ c : Comp, mu c ≤ n → CInv c → Backed c → TornDown c → (∀ r, c.w.flight r = []) →
     ∃ cs, (∀ x ∈ cs, IsFair x) ∧ cs.length ≤ n ∧ (runC .discard c cs).outstanding = 0 ∧ CInv (runC .discard c cs) := by
   induction n with
   | zero =>
-    intro c hmu hi hb ht
+    intro c hmu hi hb ht _
     refine ⟨[], by simp, by simp, ?_, hi⟩
     simp only [mu] at hmu
     simp only [runC]; omega
   | succ n ih =>
-    intro c hmu hi hb ht
+    intro c hmu hi hb ht hnf
     by_cases ho : c.outstanding = 0
     · exact ⟨[], by simp, by simp, ho, hi⟩
     · have hop : c.outstanding > 0 := by omega
-      rcases enabled c hi hb ht hop with hbuf | hex | ⟨hnd, r, hr, hd⟩
+      rcases enabled c hi hb ht hnf hop with hbuf | hex | ⟨hnd, r, hr, hd⟩
       · obtain ⟨hlt, hw⟩ := recv_decreases c hi hop (Or.inl hbuf)
         have hi' := cinv_recv c hi
         have hb' : Backed (applyC .discard c .recv).1 := backed_applyC .discard c .recv hb
         have ht' : TornDown (applyC .discard c .recv).1 := by unfold TornDown; rw [hw]; exact ht
-        obtain ⟨cs, f, l, o, i⟩ := ih _ (by omega) hi' hb' ht'
+        obtain ⟨cs, f, l, o, i⟩ := ih _ (by omega) hi' hb' ht' (by rw [hw]; exact hnf)
         refine ⟨.recv :: cs, ?_, by simp; omega, by simpa [runC] using o, by simpa [runC] using i⟩
         intro x hx
         simp only [List.mem_cons] at hx
@@ -646,14 +666,14 @@ theorem release (n : Nat) : ∀ c : Comp, mu c ≤ n → CInv c → Backed c →
         have hi' := cinv_recv c hi
         have hb' : Backed (applyC .discard c .recv).1 := backed_applyC .discard c .recv hb
         have ht' : TornDown (applyC .discard c .recv).1 := by unfold TornDown; rw [hw]; exact ht
-        obtain ⟨cs, f, l, o, i⟩ := ih _ (by omega) hi' hb' ht'
+        obtain ⟨cs, f, l, o, i⟩ := ih _ (by omega) hi' hb' ht' (by rw [hw]; exact hnf)
         refine ⟨.recv :: cs, ?_, by simp; omega, by simpa [runC] using o, by simpa [runC] using i⟩
         intro x hx
         simp only [List.mem_cons] at hx
         rcases hx with rfl | hx
         · exact Or.inl rfl
         · exact f x hx
-      · obtain ⟨hlt, hd', hrd, hcl⟩ := drop_decreases c hi hb r hr hnd hd
+      · obtain ⟨hlt, hd', hrd, hcl, hfl⟩ := drop_decreases c hi hb r hr hnd hd
         have hi' := cinv_w c (.deliverDrop r) hi
         have hb' : Backed (applyC .discard c (.w (.deliverDrop r))).1 :=
           backed_applyC .discard c _ hb
@@ -662,7 +682,7 @@ theorem release (n : Nat) : ∀ c : Comp, mu c ≤ n → CInv c → Backed c →
           rcases ht with h | h
           · rw [hnd] at h; cases h
           · exact Or.inr h
-        obtain ⟨cs, f, l, o, i⟩ := ih _ (by omega) hi' hb' ht'
+        obtain ⟨cs, f, l, o, i⟩ := ih _ (by omega) hi' hb' ht' (by rw [hfl]; exact hnf)
         refine ⟨.w (.deliverDrop r) :: cs, ?_, by simp; omega, by simpa [runC] using o, by simpa [runC] using i⟩
         intro x hx
         simp only [List.mem_cons] at hx
